@@ -224,6 +224,11 @@ class ResourceLeakFixer(MetadataPreservingTransformer, NameAndAncestorResolution
             )
             index = original_block.body.index(stmt)
             if self._is_fixable(original_block, index, named_targets, other_targets):
+                if self._find_last_index_with_access(
+                    named_targets, original_block, index
+                ) is None and self._is_referenced(named_targets):
+                    # only used from a nested scope (a closure, a comprehension): the file has to stay open
+                    continue
                 line_number = self.get_metadata(PositionProvider, resource).start.line
                 self.changes.append(
                     Change(
@@ -291,6 +296,16 @@ class ResourceLeakFixer(MetadataPreservingTransformer, NameAndAncestorResolution
                 self.leaked_assigned_resources[original_node],
             )
         return updated_node
+
+    def _is_referenced(self, named_targets) -> bool:
+        """Whether any reference to the names exists, those from nested scopes included"""
+        for name in named_targets:
+            scope = self.get_metadata(ScopeProvider, name, None)
+            if scope is not None and any(
+                assignment.references for assignment in scope.assignments[name.value]
+            ):
+                return True
+        return False
 
     def _find_last_index_with_access(
         self, named_targets, block, index
